@@ -3,6 +3,11 @@
 # Applies each *.diff to a fresh scratch worktree of /repo, runs the quick check
 # against it (VERIF_REPO), prints caught/MISSED with the violation keys, and
 # removes the worktree.  Evidence of these runs goes to .cache/evidence-scratch.
+clean_scratch_build() { # removes the binaries and module copy that ./check built for a scratch tree
+  local suf; suf=$(echo "$1" | cksum | cut -d' ' -f1)
+  rm -rf /verif/.cache/bin/*-$suf /verif/.cache/bin/*-$suf.* /verif/.cache/mod-$suf
+}
+
 ID=$1; id=$(echo $ID | tr A-Z a-z)
 DIR=${2:-/verif/harness/props/$id/mutations}
 export GOFLAGS=-mod=mod GOPROXY=off GOSUMDB=off GOTOOLCHAIN=local
@@ -19,3 +24,4 @@ for d in "$DIR"/*.diff; do
   git -C /repo worktree remove --force $wt
   rm -f /tmp/mut_apply_$$.err
 done
+clean_scratch_build /tmp/mut_${id}_$$
